@@ -29,6 +29,8 @@ Decides:
  L forkers               only the listed functions clone the State (who-may-fork registry); a pass-through wrapper works on the state it was given.
  T context free          the tokenizer only appends to / measures / rolls back the list under construction.
  A equals value          `--name=` carries the empty value: no item vanishes between argv and the ledger (shared with C02).
+ R retry outcome         a failed adjacent command reports the failure of its FIRST run (never the outcome of the retry: an empty narrowed block
+                          with fallback_to_usage would turn a stray item into usage on stdout) - shared with C08.
 Does not decide: that no combination of shapes double-delivers an item through scope arithmetic."""
 import re
 from core import *
@@ -59,6 +61,7 @@ def run(ctx):
         ctx.guard(scope_restore, ctx, cfg, fs)
         ctx.guard(tokenizer_append_only, ctx, cfg, fs)
         ctx.guard(tokenizer_context_free, ctx, cfg, fs)
+        ctx.guard(c08.keep_only, ctx, lambda: c08.matched(ctx, cfg, fs), lambda o: 'failure-is-first-outcome' in o.key or 'inner-failure-is-final' in o.key, 'R.scope-restore')
         ctx.guard(consumers.accept_sets, ctx, cfg, fs, 'A.accept-sets')
         import c08, c09, c11, c02
         ctx.guard(c08.keep_only, ctx, lambda: c02.equals_value(ctx, cfg, fs), lambda o: True, 'A.accept-sets')
